@@ -74,6 +74,12 @@ func genC07(rng *rand.Rand, tier string) *sim.Plan {
 	for i := 0; i < ns; i++ {
 		p.Clients = append(p.Clients, sim.ClientSpec{ID: fmt.Sprintf("sub%d", i), Ver: pick(rng, []byte{4, 5, 5})})
 	}
+	// one more subscriber that subscribes exactly once, concurrently with a retained publish (C07.no_gap)
+	gap := -1
+	if chance(rng, 0.6) {
+		gap = len(p.Clients)
+		p.Clients = append(p.Clients, sim.ClientSpec{ID: "gap", Ver: pick(rng, []byte{4, 5})})
+	}
 	var ph sim.Phase
 	for i := range p.Clients {
 		ph.Ops = append(ph.Ops, sim.Op{K: "connect", C: i, Clean: true})
@@ -142,6 +148,19 @@ func genC07(rng *rand.Rand, tier string) *sim.Plan {
 			}
 		}
 		p.Phases = append(p.Phases, sph)
+	}
+	if gap >= 0 {
+		// a SUBSCRIBE racing with a retained PUBLISH on the same topic: whatever the order, the new value
+		// must reach the subscriber (live if the subscription came first, replayed if the publish did)
+		t := pick(rng, topics)
+		if t[0] == '$' {
+			t = "r/a"
+		}
+		msg++
+		g := sim.Phase{Note: "gap"}
+		g.Ops = append(g.Ops, sim.Op{K: "publish", C: 0, Topic: t, QoS: byte(rng.IntN(3)), Retain: true, Payload: fmt.Sprintf("v%d", msg), Delay: sim.Us(rng.IntN(40))})
+		g.Ops = append(g.Ops, sim.Op{K: "subscribe", C: gap, Subs: []mqttc.Sub{{Filter: pick(rng, []string{t, "r/#", "#"}), QoS: byte(rng.IntN(3))}}, Delay: sim.Us(rng.IntN(40))})
+		p.Phases = append(p.Phases, g)
 	}
 	return p
 }
@@ -427,6 +446,42 @@ func oracleC07(p *sim.Plan, out *sim.Outcome) []sim.Violation {
 					vs = append(vs, viol("C07", "replay", "too-many", "client %d: retained message %q replayed %d times, expected at most %d", si, pl, got[pl], e.hi))
 				}
 			}
+		}
+	}
+	// C07.no_gap: SUBSCRIBE concurrent with a retained PUBLISH on a matching topic
+	for gi, ph := range p.Phases {
+		if ph.Note != "gap" {
+			continue
+		}
+		var pub, sub *sim.OpRec
+		for _, o := range h.Ops {
+			if o.Phase != gi {
+				continue
+			}
+			if o.Op.K == "publish" {
+				pub = o
+			}
+			if o.Op.K == "subscribe" {
+				sub = o
+			}
+		}
+		if pub == nil || sub == nil || pub.Inv < 0 || sub.Inv < 0 || sub.Result != "ok" || sub.Ack == nil || len(sub.Ack.Codes) == 0 || sub.Ack.Codes[0] >= 0x80 {
+			continue
+		}
+		if pub.Op.QoS > 0 && pub.Ack == nil {
+			continue
+		}
+		n := 0
+		for _, r := range h.Recs {
+			if r.Kind == "rx" && r.C == sub.Op.C && r.Pkt.Type == mqttc.PUBLISH && string(r.Pkt.Payload) == pub.Op.Payload {
+				n++
+			}
+		}
+		out.Probes["gap_phases"]++
+		if n == 0 {
+			vs = append(vs, viol("C07", "no_gap", "missed-live-and-replay", "client %d subscribed %q while retained message %q was being published on %q (both acknowledged): it received the new value neither as a forwarded message nor as a retained replay", sub.Op.C, sub.Op.Subs[0].Filter, pub.Op.Payload, pub.Op.Topic))
+		} else if n > 2 {
+			vs = append(vs, viol("C07", "no_gap", "too-many", "client %d received retained message %q %d times for one new subscription racing with its publication", sub.Op.C, pub.Op.Payload, n))
 		}
 	}
 	return vs
